@@ -437,6 +437,86 @@ def _cell_table(repo, report, label, stmts, env, names, loc):
     return rows, bad
 
 
+def _edit_environment_cell(repo, report, ee):
+    """The DP cell of edit_environment (sibling of the aligner's cell), explored as a whole.  The cost and match tables
+    are row-major arrays; the predecessors are identified by their index distance from the cell that is written
+    (polynomial normal form of the index expressions): -1 = same row, -stride = previous row, -stride-1 = diagonal."""
+    from ..absint import entails
+
+    cells = []
+    for lp in ast.walk(ee):
+        if isinstance(lp, ast.For):
+            st = [x for x in lp.body if isinstance(x, ast.Assign) and isinstance(x.targets[0], ast.Subscript) and isinstance(x.targets[0].value, ast.Name) and isinstance(x.value, ast.Name)]
+            if len(st) == 2 and any(isinstance(x, ast.If) for x in lp.body):
+                cells.append((lp, st))
+    if len(cells) != 1:
+        raise Unrecognised("edit_environment: DP cell loop (two table stores after a cascade) not found", repo.loc(ee))
+    lp, st = cells[0]
+    tables = [x.targets[0].value.id for x in st]
+    body = lp.body[: max(lp.body.index(x) for x in st) + 1]
+    subscripted = {n_.value.id for x in body for n_ in ast.walk(x) if isinstance(n_, ast.Subscript) and isinstance(n_.value, ast.Name)}
+    assigned = {n_.id for x in body for n_ in ast.walk(x) if isinstance(n_, ast.Name) and isinstance(n_.ctx, ast.Store)} | {n_.id for n_ in ast.walk(lp.target) if isinstance(n_, ast.Name)}
+    free = {n_.id for x in body for n_ in ast.walk(x) if isinstance(n_, ast.Name) and isinstance(n_.ctx, ast.Load)} - assigned
+    env = {}
+    for nm in sorted(free | {n_.id for n_ in ast.walk(lp.target) if isinstance(n_, ast.Name)}):
+        if nm in tables:
+            env[nm] = Obj(f"T{tables.index(nm)}", nonnull=True)
+        elif nm in subscripted:
+            env[nm] = Obj(f"A_{nm}", nonnull=True)
+        elif nm not in ("min", "max", "range", "len"):
+            env[nm] = Lin.atom(f"v_{nm}")
+    rows = explore(repo, body, env, inline=False, loop_mode="forbid")
+    report.saw(function="_align.edit_environment DP cell", valuations=len(rows))
+    ex0 = Executor(repo, {})
+    cell = [ex0.num(ex0.ev(x.targets[0].slice, env)) for x in st]
+    problems = []
+    if cell[0] != cell[1]:
+        problems.append(("cost and match count are written to different cells", cell[0].key(), cell[1].key()))
+    C = cell[0]
+    compared = {k for r in rows for k in r.valuation if k.startswith("sign:")}
+    tc = "T0" if any("T0[" in k for k in compared) else "T1"
+    tm = "T1" if tc == "T0" else "T0"
+    reads = []
+    for x in body:
+        for n_ in ast.walk(x):
+            if isinstance(n_, ast.Subscript) and isinstance(n_.ctx, ast.Load) and isinstance(n_.value, ast.Name) and n_.value.id == tables[int(tc[1])]:
+                reads.append(ex0.num(ex0.ev(n_.slice, env)) - C)
+    dist = sorted({d.key() for d in reads})
+    stride = [d for d in reads if not d.is_const()]
+    ok_shape = len(dist) == 3 and any(d == Lin.k(-1) for d in reads) and stride and all(any(d == x for x in (Lin.k(-1), s_, s_ - 1)) for d in reads for s_ in [max(stride, key=lambda z: z.const)])
+    if not ok_shape:
+        problems.append(("the three predecessors are not (same row - 1, previous row, previous row - 1)", dist))
+    else:
+        S = max(stride, key=lambda z: z.const)  # -stride
+        at = lambda t, d: Lin.atom(f"{t}[{(C + d).key()}]")
+        chars = sorted({k for k in compared if "T0[" not in k and "T1[" not in k})
+        if len(chars) != 1:
+            problems.append(("exactly one character comparison expected in the cell", chars))
+        for r in rows:
+            if problems:
+                break
+            delta = 0 if r.valuation.get(chars[0]) == 0 else 1
+            D, L, U = at(tc, S - 1) + delta, at(tc, Lin.k(-1)) + 1, at(tc, S) + 1
+            stores = {e_[1][:2]: e_[2] for e_ in r.effects if e_[0] == "store" and e_[1][:3] in ("T0[", "T1[")}
+            cands = {"diagonal": (D, at(tm, S - 1) + (1 - delta)), "same row": (L, at(tm, Lin.k(-1))), "previous row": (U, at(tm, S))}
+            chosen = [k for k, (cv, mv) in cands.items() if stores.get(tc) == cv.key()]
+            if not chosen:
+                problems.append(("the cost written is none of the three candidates", stores.get(tc)))
+                continue
+            sel = cands[chosen[0]][0]
+            mins = [entails(r.valuation, ast.LtE(), sel, x) for x in (D, L, U)]
+            if not all(m_ is True for m_ in mins):
+                problems.append(("the cost written is not the minimum of the three candidates", stores.get(tc), r.describe()["valuation"]))
+                continue
+            d_min = entails(r.valuation, ast.LtE(), D, L) is True and entails(r.valuation, ast.LtE(), D, U) is True
+            want = "diagonal" if d_min else ("same row" if entails(r.valuation, ast.LtE(), L, U) is True else "previous row")
+            if cands[want][0].key() != stores.get(tc) or cands[want][1].key() != stores.get(tm):
+                problems.append((f"expected the {want} predecessor (ties: diagonal, then same row)", stores, r.describe()["valuation"]))
+    report.ob("C01.R5", "edit_environment cascade (sibling)", not problems and len(rows) >= 6, facts={"rows": len(rows), "cell": C.key(), "predecessor_distances": dist, "problems": [str(p_)[:240] for p_ in problems[:2]]},
+              expected="cost = min(diagonal + mismatch, same row + 1, previous row + 1), ties diagonal > same row > previous row; the match count comes from the same predecessor (+1 on a diagonal match)", loc=repo.loc(lp), cases=len(rows),
+              why=str(problems[0])[:220] if problems else "")
+
+
 def r5_cell(repo, report):
     fn, col_loop, cell_loop, site1, scan_if, site2 = _locate_fragments(repo)
     # the if characters_equal: ... else: ... statement
@@ -498,9 +578,7 @@ def r5_cell(repo, report):
     report.ob("C01.R5", "DP cell: character comparison", ok, facts={"decides_on": {k: sorted(v) for k, v in tblc.items()}}, expected="ASCII: s1[i-1] == s2[j-1]; encoded: (s1[i-1] & s2[j-1]) != 0", loc=repo.loc(cell_loop))
     # siblings: edit_environment and the Python reference implementations use the same cascade
     ee = repo.func("_align", "edit_environment")
-    casc = [n for n in ast.walk(ee) if isinstance(n, ast.If) and src(n.test) == "diag <= left and diag <= up"]
-    ok = len(casc) == 1 and isinstance(casc[0].orelse[0], ast.If) and src(casc[0].orelse[0].test) == "left <= up"
-    report.ob("C01.R5", "edit_environment cascade (sibling)", ok, facts={"test": src(casc[0].test) if casc else None}, expected="diag <= left and diag <= up; elif left <= up; else up", loc=repo.loc(ee))
+    _edit_environment_cell(repo, report, ee)
 
 
 def r6_comparers(repo, report):
